@@ -99,7 +99,7 @@ P("C01", module="AJ.Props.C01All", extra=[("AJ.Props.C01", ["C01"]), ("AJ.Props.
                        S.JsonDocSuite(cfg=DEF, n=800 if tier == "quick" else 60000), S.JsonDocSuite(cfg=G["len1"], n=300 if tier == "quick" else 30000)],
   partial=[])
 
-P("C02", module="AJ.Props.C02All", extra=[("AJ.Props.C02", ["C02"]), ("AJ.Props.C02Parse", ["C02"])],
+P("C02", module="AJ.Props.C02All", extra=[("AJ.Props.SlotCor", ["C02"]), ("AJ.Props.C02", ["C02"]), ("AJ.Props.C02Parse", ["C02"])],
   level_text="Theorems for every text and every capacity: the bounded writer returns min(cap,length), stores exactly that prefix, writes a NUL iff "
   "length < cap (text formats), defines exactly cap bytes and leaves the rest untouched. Theorems for every document within the limits whose strings hold no raw control character other "
   "than the five escaped ones (C02.compact_in_grammar, pretty_in_grammar, both_denote_same): the compact and the pretty text are RFC 8259 texts (relational grammar lean/AJ/Spec/Json.lean) and "
@@ -125,7 +125,7 @@ P("C03", module="AJ.Props.C03All", extra=[("AJ.Props.C03", ["C03"]), ("AJ.Props.
                        S.JsonAnySuite(cfg={"arduino": 1}, n=4000 if tier == "quick" else 100000, maxlen=2)] +
   ([S.JsonAnySuite(cfg=CFG_ALL, n=200000), S.JsonAnySuite(cfg=CFG_NOUNI, n=100000)] if tier == "thorough" else [S.JsonAnySuite(cfg=CFG_ALL, n=8000)]))
 
-P("C07", module="AJ.Props.C07All", extra=[("AJ.Props.C07", ["C07"]), ("AJ.Props.C07Float", ["C07"]), ("AJ.Props.C07Cross", ["C07"])],
+P("C07", module="AJ.Props.C07All", extra=[("AJ.Props.SlotCor", ["C07"]), ("AJ.Props.C07", ["C07"]), ("AJ.Props.C07Float", ["C07"]), ("AJ.Props.C07Cross", ["C07"])],
   level_text="Theorems: MessagePack round trip for every raw-free document within limits (accepted, exact consumption, result = norm d with numerically equal numbers, second "
   "serialization byte-identical); JSON: json_roundtrip_all (the deserializer model reads serializeJson's text back as readBack d: same structure, order, keys, strings, integers exact), and "
   "C07.json_roundtrip_floats_close: every floating-point leaf comes back within the composed C12 bounds - float_through_json: a double x in [1e-300,1e300] comes back as y with "
@@ -199,7 +199,7 @@ P("C11", module="AJ.Props.C11All", extra=[("AJ.Props.C11", ["C11"]), ("AJ.Props.
                        S.MpDocFSuite(cfg=G["len1"], n=400 if tier == "quick" else 40000), S.MpDocFSuite(cfg=G["tiny2"], n=400 if tier == "quick" else 40000)],
   partial=["memory clause: proved for the memory HELD at the end of the two runs (strings, nodes, slots); as a statement about the total of the allocator requests it is false on the code (two known findings), and the peak during the run is compared on the implementation only"])
 
-P("C12", module="AJ.Props.C12All", extra=[("AJ.Props.C12", ["C12"]), ("AJ.Props.C12Print", ["C12"])],
+P("C12", module="AJ.Props.C12All", extra=[("AJ.Props.SlotCor", ["C12"]), ("AJ.Props.C12", ["C12"]), ("AJ.Props.C12Print", ["C12"])],
   level_text="Theorems: every integer literal in [-2^63, 2^64) with any number of leading zeros parses to exactly that integer and nothing else does; integers print digit-exact; "
   "print/parse round trip over the whole 64-bit range; no literal of any length reaches an out-of-range table index. Floating point, over exact rationals - PARSE (C12.float_clauses, "
   "parse_double_error, parse_float_error, huge_value_is_inf, tiny_value_is_zero, many_digits_double, saturated_exponent, parse_subnormal_band): for every RFC number literal of at most 99000 "
@@ -228,7 +228,7 @@ P("C15", module="AJ.Props.C15All", extra=[("AJ.Props.C15", ["C15"]), ("AJ.Props.
   level_note="stack bytes are observed on the binary; 'as soon as' for nested objects is covered by the correspondence",
   suites=lambda tier: [S.DepthSuite(cfg=DEF), S.DepthSuite(cfg=CFG_ALL)])
 
-P("C16", module="AJ.Props.C16All", extra=[("AJ.Props.C01", ["C16"]), ("AJ.Props.C16", ["C16"]), ("AJ.Props.C16Seq", ["C16"]), ("AJ.Props.C09Doc", ["C16"])],
+P("C16", module="AJ.Props.C16All", extra=[("AJ.Props.SlotCor", ["C16"]), ("AJ.Props.C01", ["C16"]), ("AJ.Props.C16", ["C16"]), ("AJ.Props.C16Seq", ["C16"]), ("AJ.Props.C09Doc", ["C16"])],
   level_text="Theorems: deserializeJson consumes the leading white space and exactly the bytes of the top-level value, plus one byte when it is a number and something follows "
   "(number_consumes_at_most_one_more, run_doc, exact_consumption); deserializeMsgPack consumes exactly the bytes of one object; C16.json_sequence / json_sequence_gen: for any list of documents "
   "of the dialect (any configuration and limit) written back to back, where only a number must be followed by a white-space byte, k successive calls return exactly the documents one after "
@@ -240,7 +240,7 @@ P("C16", module="AJ.Props.C16All", extra=[("AJ.Props.C01", ["C16"]), ("AJ.Props.
   suites=lambda tier: [S.StreamSuite(cfg=DEF), S.StreamSuite(cfg=CFG_ALL, n=800 if tier == "quick" else 60000), S.FilterSuite(cfg={"USE_DOUBLE": 0}, n=1500 if tier == "quick" else 60000)],
   partial=["reader chunking is a property of the real readers (correspondence)"])
 
-P("C17", module="AJ.Props.C17All", extra=[("AJ.Props.C17", ["C17"]), ("AJ.Props.C10Gen", ["C17"])], level_text="C17.hex_digit_is_source: the model's decodeHex agrees for all 256 bytes with the table regenerated on every run by calling the compiled JsonDeserializer::decodeHex. Theorems (for every code point / byte / byte string): Utf8::encodeCodepoint is UTF-8, decodeHex is right on every hex digit in both cases, surrogate recombination, "
+P("C17", module="AJ.Props.C17All", extra=[("AJ.Props.SlotCor", ["C17"]), ("AJ.Props.C17", ["C17"]), ("AJ.Props.C10Gen", ["C17"])], level_text="C17.hex_digit_is_source: the model's decodeHex agrees for all 256 bytes with the table regenerated on every run by calling the compiled JsonDeserializer::decodeHex. Theorems (for every code point / byte / byte string): Utf8::encodeCodepoint is UTF-8, decodeHex is right on every hex digit in both cases, surrogate recombination, "
   "\\uXXXX and surrogate pairs decode to UTF-8 at any position of a string (and key), whatever serializeJson writes for a byte string deserializeJson reads back identically, "
   "and bytes other than the eight special ones are emitted verbatim. Tables are regenerated from /repo. Exhaustive differential run over all code units, pairs, bytes and byte pairs.",
   level_note="Lean kernel; model validated exhaustively on this domain",
